@@ -86,6 +86,7 @@ func runC12(c *core.Ctx) {
 		c.Fail("C12.R0", "anchor/ocifilter.AccessChecker", 0, "anchor not found: ocifilter.AccessChecker or the AccessKind constants")
 		return
 	}
+	accessCheckerConstructorStoresParams(c, "C12.R0")
 	ts := constructorResultTypes(ctor)
 	if len(ts) != 1 {
 		c.Fail("C12.R0", "anchor/AccessChecker.result", ctor.Pos(), sprintf("AccessChecker returns %d concrete types; expected exactly one wrapper type", len(ts)))
